@@ -35,6 +35,7 @@ type Contract struct {
 	AssumedWhy string
 	Mode       string
 	NoAuto     bool // no automatic candidate invariants
+	Wraps      bool // discarded carries are intended (arithmetic modulo 2^k)
 	Fresh      []*Clause
 	CallSites  []*CallSite
 	used       bool
@@ -64,7 +65,7 @@ type Lemma struct {
 }
 
 var clauseKW = map[string]bool{"func": true, "pure": true, "requires": true, "ensures": true, "assigns": true,
-	"panics-if": true, "loop": true, "callsite": true, "assumed": true, "mode": true, "lemma": true, "noauto": true, "uf": true, "axiom": true}
+	"panics-if": true, "loop": true, "callsite": true, "assumed": true, "mode": true, "lemma": true, "noauto": true, "wraps": true, "uf": true, "axiom": true}
 
 var labelRe = regexp.MustCompile(`^(requires|ensures|panics-if|callsite)\[([A-Za-z0-9_.-]+)\]`)
 
@@ -271,6 +272,8 @@ func (e *Engine) loadContractFile(path string, pkg *ssa.Package) error {
 				cur.Mode = strings.TrimSpace(rc.text)
 			case "noauto":
 				cur.NoAuto = true
+			case "wraps":
+				cur.Wraps = true
 			}
 		}
 	}
